@@ -25,7 +25,8 @@ RULE = ("configuration: prefix/suffix (absent or 1-3 chars) and 0-3 stop sequenc
         "`\\nUser intent: `); text = [prefix] + body [+ suffix] [+ stop + tail] with partial patterns injected; exhaustive cases run "
         "ALL 2^(n-1) chunkings (n<=7 quick, n<=10 thorough), long texts (n<=200) run sampled chunkings incl. 1-char and single-chunk; "
         "every end-of-stream protocol (push_chunk(\"\"), push_chunk(None), on_llm_end, \"\"+on_llm_end), queue and pipe_to mode, "
-        "push_chunk and on_llm_new_token feeding; a small malformed stream (empty chunks mid-stream) is compared with the model only. "
+        "push_chunk and on_llm_new_token feeding; an empty FIRST token through on_llm_new_token (ignored by design: the property applies); "
+        "a small malformed stream (empty chunks mid-stream) is compared with the model only. "
         "non-trivial = at least one pattern configured, >= 2 chunkings, the text starts with the prefix (if any) and contains the first "
         "character of a configured suffix/stop sequence or a prefix is configured; distinct = distinct case JSON.")
 TRUSTED_BASE = [
@@ -162,10 +163,24 @@ def g_text(rng, alpha, cfg, maxlen, body_hi):
     return t
 
 
+def g_pipe_cfg(rng, alpha):
+    """configuration of the handler at the far end of pipe_to (two-stage pipe): patterns over the same alphabet"""
+    return {"prefix": g_word(rng, alpha, 1, 2) if rng.random() < 0.4 else None,
+            "suffix": g_word(rng, alpha, 1, 2) if rng.random() < 0.6 else None,
+            "stop": [g_word(rng, alpha, 1, 2) for _ in range(rng.choice([0, 1, 1, 2]))]}
+
+
 def g_exhaustive_case(rng, maxlen):
     alpha, cfg = g_small_cfg(rng)
     text = g_text(rng, alpha, cfg, maxlen, 4)
-    return dict(cfg, text=text, end=rng.choice(ENDS), pipe=rng.random() < 0.3, feed="token" if rng.random() < 0.2 else "push", mode="all")
+    case = dict(cfg, text=text, end=rng.choice(ENDS), pipe=rng.random() < 0.3, feed="token" if rng.random() < 0.2 else "push", mode="all")
+    if case["pipe"] and rng.random() < 0.4:
+        case["pipe_cfg"] = g_pipe_cfg(rng, alpha)
+        if rng.random() < 0.5:
+            # make the second stage matter: what the producer delivers starts with the second prefix
+            inner = (case["pipe_cfg"]["prefix"] or "") + g_word(rng, alpha, 0, 2) + (case["pipe_cfg"]["suffix"] or "")
+            case["text"] = ((cfg["prefix"] or "") + inner + (cfg["suffix"] or ""))[:maxlen]
+    return case
 
 
 def g_long_case(rng, nsamples):
@@ -207,6 +222,14 @@ def g_malformed_case(rng):
             cs.insert(rng.randrange(len(cs) + 1), "")
         cks.append(cs)
     return dict(cfg, text=text, end=rng.choice(ENDS), pipe=rng.random() < 0.3, feed="token" if rng.random() < 0.3 else "push", mode="list", chunkings=cks, malformed=True)
+
+
+def g_first_empty_token_case(rng):
+    """LangChain may deliver an empty FIRST token (on_llm_new_token ignores it explicitly): same text, so the property applies"""
+    alpha, cfg = g_small_cfg(rng)
+    text = g_text(rng, alpha, cfg, 8, 4)
+    cks = [[""] + random_chunking(rng, text, rng.choice([0.2, 0.5, 0.9])) for _ in range(4)]
+    return dict(cfg, text=text, end=rng.choice(ENDS), pipe=rng.random() < 0.3, feed="token", mode="list", chunkings=cks, first_empty=True)
 
 
 USAGE_HEADS = ["u\nb\n", "u\n\nb\n", "#c\nu\nb\n", " u\n b\n", "u\nb\n\n"]
@@ -266,9 +289,26 @@ TOPK_ALPHA = ["a", "b", "#", " ", "\n", "\n", "\t", "\r", "\u00a0", "\u3000", "\
 
 
 def g_topk_case(rng, ws_codes):
-    """one buffer for wait_top_k_nonempty_lines / the event condition, any number of lines (also fewer than k)"""
-    alpha = TOPK_ALPHA + [chr(rng.choice(ws_codes))]
-    text = "".join(rng.choice(alpha) for _ in range(rng.randint(0, 14)))
+    """one buffer for wait_top_k_nonempty_lines / the event condition: 0-6 lines (blank, blank for str.strip() only,
+    comment, content with leading/trailing Unicode blanks), so that fewer than k, exactly k and more than k non-empty lines all occur"""
+    if rng.random() < 0.25:
+        alpha = TOPK_ALPHA + [chr(rng.choice(ws_codes))]
+        text = "".join(rng.choice(alpha) for _ in range(rng.randint(0, 14)))
+    else:
+        def blank():
+            return "".join(chr(rng.choice(ws_codes)) if rng.random() < 0.6 else rng.choice(" \t") for _ in range(rng.randint(0, 3))).replace("\n", "")
+        lines = []
+        for _ in range(rng.randint(0, 6)):
+            q = rng.random()
+            if q < 0.25:
+                lines.append(blank())
+            elif q < 0.4:
+                lines.append(blank() + "#" + rng.choice(["", " c", "\u00a0"]))
+            elif q < 0.5:
+                lines.append(blank() + "\u200b" + blank())   # ZERO WIDTH SPACE is not white space: the line counts
+            else:
+                lines.append(blank() + rng.choice(["u", "b x", "a#", "\u00e9", "x\u00a0y"]) + blank())
+        text = "\n".join(lines) + rng.choice(["", "\n", "\n\n"])
     return dict(kind="topk", k=rng.choice([1, 2, 2, 3]), text=text)
 
 
@@ -294,6 +334,8 @@ def gen_cases(rng, tier):
         cases.append(g_long_case(rng, ns))
     for _ in range(n_mal):
         cases.append(g_malformed_case(rng))
+    for _ in range(n_mal // 2):
+        cases.append(g_first_empty_token_case(rng))
     return cases + gen_usage_cases(rng, tier)
 
 
@@ -321,6 +363,9 @@ async def _one(case, chunks):
     tgt = h
     if case["pipe"]:
         tgt = StreamingHandler()
+        if case.get("pipe_cfg"):
+            tgt.set_pattern(prefix=case["pipe_cfg"]["prefix"], suffix=case["pipe_cfg"]["suffix"])
+            tgt.stop = list(case["pipe_cfg"]["stop"])
         h.set_pipe_to(tgt)
     rid = uuid.UUID(int=0)
     for c in chunks:
@@ -341,6 +386,8 @@ async def _one(case, chunks):
     items = []
     while not tgt.queue.empty():
         items.append(tgt.queue.get_nowait())
+    if case.get("pipe_cfg"):
+        return [items, h.completion, h.streaming_finished_event.is_set(), tgt.completion, tgt.streaming_finished_event.is_set()]
     return [items, h.completion, h.streaming_finished_event.is_set()]
 
 
@@ -401,6 +448,8 @@ def model_requests(case, obs):
         return [req, dict(req, variant="tree")]
     req = {"m": "C18.runMany", "cfg": {"prefix": case["prefix"], "suffix": case["suffix"], "stop": case["stop"]},
            "end": case["end"], "tokens": case["feed"] == "token", "pipe": bool(case["pipe"]), "chunkings": chunkings_of(case)}
+    if case.get("pipe_cfg"):
+        req["pipe_cfg"] = case["pipe_cfg"]
     # [0] the repaired handler (the model the theorems are about), [1] the handler as it is in the unpatched tree
     return [req, dict(req, asis=True)]
 
@@ -464,6 +513,8 @@ def compare(case, obs, mouts):
     bad, unexplained = [], []
     for k, (r, mr, mar) in enumerate(zip(runs, m, ma)):
         got = {"items": r[0], "completion": r[1], "finished": r[2]}
+        if len(r) > 3:
+            got.update(tcompletion=r[3], tfinished=r[4])
         if got != mr:
             as_is = dict(got, overflow=False) == mar
             bad.append((k, f"implementation {got} but model {mr}" + (" (the as-is model of the unpatched handler agrees with the implementation)" if as_is else f"; NEITHER does the as-is model agree: {mar}")))
@@ -554,6 +605,19 @@ def _failures(case, obs):
         return _failures_usage(case, obs)
     exp = expected(case)
     bad = []
+    if case.get("pipe_cfg"):
+        # two-stage pipe: the second handler applies ITS patterns to what the first one delivers.  Its end of stream is
+        # the first handler's end marker; on_llm_end always forwards one (without it the held-back tail stays inside).
+        exp2 = expected(dict(case["pipe_cfg"], text=exp, end="empty"))
+        for k, r in enumerate(obs["runs"]):
+            delivered = "".join(x for x in r[0] if isinstance(x, str))
+            if r[1] != exp:
+                bad.append((k, f"completion of the piping handler {r[1]!r}, expected {exp!r}"))
+            elif "llm_end" in case["end"] and delivered != exp2:
+                bad.append((k, f"the consumer of the piped handler (its own patterns {case['pipe_cfg']}) received {delivered!r}, expected {exp2!r} = its patterns applied to {exp!r}"))
+            elif "llm_end" in case["end"] and r[3] != exp2:
+                bad.append((k, f"completion of the piped handler {r[3]!r}, expected {exp2!r}"))
+        return bad
     for k, r in enumerate(obs["runs"]):
         delivered = "".join(x for x in r[0] if isinstance(x, str))
         if delivered != exp:
@@ -698,20 +762,17 @@ def tags_usage(case, obs):
 
 def tags(case, obs):
     if case.get("kind") == "topk":
-        t = ["kind:topk", "k:%d" % case["k"], "event:" + str(obs["event"]).lower()]
-        if any(ord(c) > 127 and c.isspace() for c in case["text"]):
-            t.append("topk:non-ascii-blank")
+        t = ["kind:topk", "topk:event-set" if obs["event"] else "topk:event-not-set"]
         if any(line and not line.strip() and any(ord(c) > 127 for c in line) for line in case["text"].split("\n")):
             t.append("topk:line-of-non-ascii-blanks-only")
-        if "\u200b" in case["text"]:
-            t.append("topk:zero-width-space-is-not-blank")
-        t.append("topk:lines-" + str(min(5, case["text"].count("\n") + 1)))
         return t
     if case.get("kind") == "usage":
         return tags_usage(case, obs)
-    t = ["mode:" + case["mode"], "end:" + case["end"], "pipe" if case["pipe"] else "queue", "feed:" + case["feed"]]
+    t = ["mode:" + case["mode"], "end:" + case["end"], ("pipe-to-configured-handler" if case.get("pipe_cfg") else "pipe") if case["pipe"] else "queue", "feed:" + case["feed"]]
     if case.get("malformed"):
         t.append("malformed-empty-chunk")
+    if case.get("first_empty"):
+        t.append("first-empty-token")
     n = len(case["text"])
     t.append("len:" + (str(n) if n <= 10 else "11-50" if n <= 50 else ">50"))
     t.append("cfg:" + ("P" if case["prefix"] else "-") + ("S" if case["suffix"] else "-") + str(min(len(case["stop"]), 3)))
@@ -738,7 +799,7 @@ def tags(case, obs):
     if len({(tuple(r[0]), r[1]) for r in obs["runs"]}) > 1:
         t.append("segmentation-varies")
     if len({("".join(x for x in r[0] if isinstance(x, str)), r[1]) for r in obs["runs"]}) > 1:
-        t.append("malformed-result-varies" if case.get("malformed") else "RESULT-VARIES-WITH-CHUNKING")
+        t.append("malformed-result-varies" if case.get("malformed") else "two-stage-no-end-marker-varies" if case.get("pipe_cfg") and "llm_end" not in case["end"] else "RESULT-VARIES-WITH-CHUNKING")
     return t
 
 
@@ -773,7 +834,16 @@ def shrink(case):
         yield dict(case, stop=case["stop"][:i] + case["stop"][i + 1:])
     if case["suffix"]:
         yield dict(case, suffix=None)
-    if case["pipe"]:
+    if case.get("pipe_cfg"):
+        pc = case["pipe_cfg"]
+        for i in range(len(pc["stop"])):
+            yield dict(case, pipe_cfg=dict(pc, stop=pc["stop"][:i] + pc["stop"][i + 1:]))
+        if pc["suffix"]:
+            yield dict(case, pipe_cfg=dict(pc, suffix=None))
+        if pc["prefix"]:
+            yield dict(case, pipe_cfg=dict(pc, prefix=None))
+        yield {k: v for k, v in case.items() if k != "pipe_cfg"}
+    elif case["pipe"]:
         yield dict(case, pipe=False)
     if case["feed"] != "push":
         yield dict(case, feed="push")
